@@ -18,13 +18,13 @@ import (
 
 // IsoOp is one client operation in the isolation world.
 type IsoOp struct {
-	Kind  string `json:"kind"` // create update noop addfin remfin modify get list cget clist rget rlist scribble mdcopy mdscribble
-	ID    string `json:"id,omitempty"`
-	Val   string `json:"val,omitempty"`
-	Fin   string `json:"fin,omitempty"`
-	Sel   int    `json:"sel,omitempty"` // clist/list/rlist: 0 none, 1 label selector, 2 id selector
-	Obj   int    `json:"obj,omitempty"` // scribble: index into the client's bag (mod size)
-	Mut   string `json:"mut,omitempty"` // scribble mutation
+	Kind string `json:"kind"` // create update noop addfin remfin modify get list cget clist rget rlist scribble mdcopy mdscribble
+	ID   string `json:"id,omitempty"`
+	Val  string `json:"val,omitempty"`
+	Fin  string `json:"fin,omitempty"`
+	Sel  int    `json:"sel,omitempty"` // clist/list/rlist: 0 none, 1 label selector, 2 id selector
+	Obj  int    `json:"obj,omitempty"` // scribble: index into the client's bag (mod size)
+	Mut  string `json:"mut,omitempty"` // scribble mutation
 }
 
 // C19Case is a C19 run.
